@@ -91,15 +91,15 @@ func hashText(sb *strings.Builder, v value, depth int) {
 
 // group/version by Go package path for typed API objects (what the schemes used by the operator register)
 var apiGroups = map[string][2]string{
-	"package-operator.run/apis/core/v1alpha1":                          {"package-operator.run", "v1alpha1"},
-	"package-operator.run/apis/manifests/v1alpha1":                     {"manifests.package-operator.run", "v1alpha1"},
-	"k8s.io/api/core/v1":                                               {"", "v1"},
-	"k8s.io/api/apps/v1":                                               {"apps", "v1"},
-	"k8s.io/api/batch/v1":                                              {"batch", "v1"},
-	"k8s.io/api/rbac/v1":                                               {"rbac.authorization.k8s.io", "v1"},
-	"k8s.io/apiextensions-apiserver/pkg/apis/apiextensions/v1":         {"apiextensions.k8s.io", "v1"},
-	"k8s.io/api/admissionregistration/v1":                              {"admissionregistration.k8s.io", "v1"},
-	"package-operator.run/internal/apis/manifests":                     {"manifests.package-operator.run", "__internal"},
+	"package-operator.run/apis/core/v1alpha1":                                     {"package-operator.run", "v1alpha1"},
+	"package-operator.run/apis/manifests/v1alpha1":                                {"manifests.package-operator.run", "v1alpha1"},
+	"k8s.io/api/core/v1":                                                          {"", "v1"},
+	"k8s.io/api/apps/v1":                                                          {"apps", "v1"},
+	"k8s.io/api/batch/v1":                                                         {"batch", "v1"},
+	"k8s.io/api/rbac/v1":                                                          {"rbac.authorization.k8s.io", "v1"},
+	"k8s.io/apiextensions-apiserver/pkg/apis/apiextensions/v1":                    {"apiextensions.k8s.io", "v1"},
+	"k8s.io/api/admissionregistration/v1":                                         {"admissionregistration.k8s.io", "v1"},
+	"package-operator.run/internal/apis/manifests":                                {"manifests.package-operator.run", "__internal"},
 	"package-operator.run/internal/controllers/hostedclusters/hypershift/v1beta1": {"hypershift.openshift.io", "v1beta1"},
 }
 
@@ -280,23 +280,7 @@ func registerK8sIntrinsics(e *Engine) {
 		}
 		return tuple{content, iface{}}
 	})
-	// YAML decoding and CEL cannot be executed. For the ordering/conservation harnesses of C13: every YAML file holds
-	// exactly one object named after its path (the harness writes such files, so the real parser agrees), and a package
-	// without CEL conditions needs no CEL environment.
-	e.reg("package-operator.run/internal/packages/internal/packagerender.parseObjects", func(fr *frame, args []value) value {
-		i := fr.i
-		path := i.concretizeStr(args[2])
-		obj := newMap()
-		md := newMap()
-		md.set("name", iface{tString, strings.NewReplacer("/", "-", ".", "-").Replace(path)})
-		ann := newMap()
-		ann.set("package-operator.run/phase", iface{tString, "deploy"})
-		md.set("annotations", iface{i.tMapStringAny(), ann})
-		obj.set("apiVersion", iface{tString, "v1"})
-		obj.set("kind", iface{tString, "ConfigMap"})
-		obj.set("metadata", iface{i.tMapStringAny(), md})
-		return tuple{[]value{structure{obj}}, iface{}}
-	})
+	// CEL cannot be executed: a package without CEL conditions needs no CEL environment.
 	e.reg("package-operator.run/internal/packages/internal/packagerender/celctx.New", func(fr *frame, args []value) value {
 		conds, _ := args[0].([]value)
 		if len(conds) > 0 {
